@@ -15,8 +15,8 @@ PLANS = {
 }
 
 PLANS["C02"] = {
-    "quick": [J("restart", "c=2,f=1", 90), J("restartwrap", "c=2", 40), J("restartfs", "c=1,f=1", 60)],
-    "thorough": [J("restart", "c=3,f=2,p=1", 900), J("restartwrap", "c=3,f=1,p=1", 600), J("restartfs", "c=2,f=1", 600)],
+    "quick": [J("restart", "c=2,f=1", 90), J("restartwrap", "c=2", 40), J("restartfs", "c=1,f=1", 60), J("restart2p", "p=1,c=1,s=1", 60)],
+    "thorough": [J("restart", "c=3,f=2,p=1", 900), J("restartwrap", "c=3,f=1,p=1", 600), J("restartfs", "c=2,f=1", 600), J("restart2p", "p=2,c=1,s=1", 600)],
 }
 
 PLANS["C03"] = {
@@ -54,8 +54,8 @@ PLANS["C06"] = {
     "thorough": [J("inbound32", "f=2", 600), J("inbound32skip", "f=2", 600), J("inbound64", "f=2", 600), J("inboundctl", "f=3", 600)],
 }
 PLANS["C07"] = {
-    "quick": [J("acktiming", "p=1,f=1,s=1", 90)],
-    "thorough": [J("acktiming", "p=2,f=2,s=2", 900)],
+    "quick": [J("acktiming", "p=1,f=1,s=1", 90), J("qos2in", "f=1,c=1", 40)],
+    "thorough": [J("acktiming", "p=2,f=2,s=2", 900), J("qos2in", "f=2,c=1", 400)],
 }
 
 PLANS["C17"] = {
